@@ -1,4 +1,49 @@
 (* C06 — the case decoder / model runner / observable encoder is shared by the
-   three rolling-appender properties: Run/RollingRun.v. *)
-From L4 Require Import Common.Val Run.RollingRun.
-Definition c06_run : vl -> vl := rolling_run.
+   three rolling-appender properties: Run/RollingRun.v.
+   Histories that contain a record whose ENCODER fails (op (11 chunks)) run on the machine of
+   Model/RollingEnc.v (ops 0 append / 1 restart / 11 failed-encoder append only, post-processing
+   triggers); entry per op as in RollingRun: ( consultations files err ). *)
+From Coq Require Import List NArith Bool.
+Import ListNotations.
+From L4 Require Import Common.Val Common.FSRoll Model.Rolling Model.RollingEnc Run.RollingRun.
+Local Open Scope N_scope.
+
+Definition dec_eop (v : vl) : option eop :=
+  match v with
+  | VL [VN 0; chunks] => match val_list val_S chunks with Some cs => Some (EAppend cs) | None => None end
+  | VL [VN 1; a] => match val_bool a with Some b => Some (ERestart b) | None => None end
+  | VL [VN 11; chunks] => match val_list val_S chunks with Some cs => Some (EFail cs) | None => None end
+  | _ => None
+  end.
+
+Definition is_fail (o : eop) : bool := match o with EFail _ => true | _ => false end.
+
+Fixpoint etrace (c : config) (ops : list eop) (e : est) : list vl :=
+  match ops with
+  | [] => []
+  | o :: r =>
+    let '(e1, ev) := estep c o e in
+    VL [VL (flat_map enc_event ev); VL (map enc_file (files (est_s e1))); VB (is_fail o)] :: etrace c r e1
+  end.
+
+Definition has_fail (ops : vl) : bool :=
+  match ops with
+  | VL l => existsb (fun o => match o with VL (VN 11 :: _) => true | _ => false end) l
+  | _ => false
+  end.
+
+Definition c06_run (v : vl) : vl :=
+  match v with
+  | VL [t; r; p; a; ops] =>
+    if has_fail ops then
+      match dec_trigger t, dec_roller r, dec_pre p, val_bool a, val_list dec_eop ops with
+      | Some tg, Some rl, Some pre, Some a0, Some os =>
+        let c := {| trig := tg; roll_by := rl |} in
+        if is_pre tg then VBad else
+        let e0 := einit a0 pre in
+        VL (VL [VL []; VL (map enc_file (files (est_s e0))); VB false] :: etrace c os e0)
+      | _, _, _, _, _ => VBad
+      end
+    else rolling_run v
+  | _ => VBad
+  end.
